@@ -124,7 +124,8 @@ prop("C18", "CWT claims sets and KDF contexts decode and encode per their defini
                       "or byte strings; COSE_KDF_Context arrays of arity 0..6 with every kind per slot, "
                       "PartyInfo / SuppPubInfo arrays of arity 0..5",
              "thorough": "claims maps <= 3 entries, KDF context arity 0..7"},
-     outside="encode direction is covered by C11's check; larger maps", assumptions=[])
+     outside="larger maps; encode direction: the decode -> encode (vs reference encoder) -> decode -> encode "
+             "jobs over the four types with C07's bounds (values that only a builder can make: C11)", assumptions=[])
 
 prop("C12", "No map handled by the crate ever carries the same label twice",
      mirsym={"jobs": _jl("c12"), "budget_s": {"quick": 900, "thorough": 3000}},
